@@ -103,6 +103,8 @@ def run(ctx, rep):
                           'guard after acquiring it: a concurrent update made between the earlier look-up and the '
                           'acquisition is overwritten or acted upon twice (%s)' % (fn, mname, why))
     reload_rule(f, P, rep, 'C06.6')
+    from . import c02
+    c02.drop_rule(f, rep, 'C06.7', 'unused')
     # C06.2 / C06.3
     d = LockDomain(P)
     ip = Interp(P, d)
